@@ -31,10 +31,13 @@ type cmCase struct {
 }
 
 type cmDecl struct {
-	name   string
-	line   cmLine
-	hoverS int
-	col    int
+	name    string
+	line    cmLine
+	hoverS  int
+	col     int
+	col2    int // column of the use in the second file (globals only), -1 if none
+	hoverS2 int
+	where   string
 }
 
 type cmData struct {
@@ -95,6 +98,12 @@ func cmBuild(id int, raw json.RawMessage) *Job {
 			case "gfunc":
 				name = fmt.Sprintf("f%d", l.ID)
 				stmt = fmt.Sprintf("function %s(pa, pb) end", name)
+			case "gfuncv":
+				name = fmt.Sprintf("f%d", l.ID)
+				stmt = fmt.Sprintf("function %s(...) end", name)
+			case "lfuncv":
+				name = fmt.Sprintf("h%d", l.ID)
+				stmt = fmt.Sprintf("local function %s(pa, ...) end", name)
 			case "member":
 				name = fmt.Sprintf("tb.m%d", l.ID)
 				stmt = fmt.Sprintf("%s = %d", name, l.ID)
@@ -123,11 +132,27 @@ func cmBuild(id int, raw json.RawMessage) *Job {
 	nlines := strings.Count(sb.String(), "\n")
 	sb.WriteString(last)
 	d.text = sb.String()
-	pc := &proto.Case{ID: id, Files: map[string]string{"f.lua": d.text}, Init: json.RawMessage(allOnLocal)}
-	pc.Steps = append(pc.Steps, openStep("f.lua", d.text))
+	// the globals are also used from a second file: the same label and documentation are due there
+	other := "local z = 0 -- " + cmText[(rot+4)%6+1] + "\nprint(z"
+	for i := range d.decls {
+		d.decls[i].col2 = -1
+		if k := d.decls[i].line.Kind; k == "global" || k == "gfunc" || k == "gfuncv" {
+			other += ", "
+			d.decls[i].col2 = len(other) - len("local z = 0 -- "+cmText[(rot+4)%6+1]+"\n")
+			other += d.decls[i].name
+		}
+	}
+	other += ")\n"
+	pc := &proto.Case{ID: id, Files: map[string]string{"f.lua": d.text, "u.lua": other}, Init: json.RawMessage(allOnLocal)}
+	pc.Steps = append(pc.Steps, openStep("f.lua", d.text), openStep("u.lua", other))
 	for i := range d.decls {
 		pc.Steps = append(pc.Steps, proto.Step{M: "textDocument/hover", P: posParams("f.lua", nlines, d.decls[i].col)})
 		d.decls[i].hoverS = len(pc.Steps) - 1
+		d.decls[i].hoverS2 = -1
+		if d.decls[i].col2 >= 0 {
+			pc.Steps = append(pc.Steps, proto.Step{M: "textDocument/hover", P: posParams("u.lua", 1, d.decls[i].col2)})
+			d.decls[i].hoverS2 = len(pc.Steps) - 1
+		}
 	}
 	return &Job{PC: pc, Data: d}
 }
@@ -172,7 +197,16 @@ func cmJudge(c *Ctx, j *Job, res *proto.Result) {
 		c.Rep.Violation(j.Raw, fmt.Sprintf("server died or hung (crash=%q hang=%v) on %q", res.Crash, res.Hang, d.text))
 		return
 	}
+	var asked []cmDecl
 	for _, dc := range d.decls {
+		dc.where = "f.lua"
+		asked = append(asked, dc)
+		if dc.hoverS2 >= 0 {
+			dc.hoverS, dc.where = dc.hoverS2, "u.lua (another file)"
+			asked = append(asked, dc)
+		}
+	}
+	for _, dc := range asked {
 		label, doc, ok := hoverParts(res.Steps[dc.hoverS].Reply)
 		var prob []string
 		if !ok {
@@ -205,6 +239,15 @@ func cmJudge(c *Ctx, j *Job, res *proto.Result) {
 				if !strings.Contains(label, "function") || a < 0 || b < a {
 					prob = append(prob, fmt.Sprintf("label %q does not show the parameter list (pa, pb) as written", label))
 				}
+			case "gfuncv":
+				if !dc.line.Unspec && (!strings.Contains(label, "function") || !strings.Contains(label, "...")) {
+					prob = append(prob, fmt.Sprintf("label %q does not show the parameter list (...) as written", label))
+				}
+			case "lfuncv":
+				a, b := strings.Index(label, "pa"), strings.Index(label, "...")
+				if !dc.line.Unspec && (!strings.Contains(label, "function") || a < 0 || b < a) {
+					prob = append(prob, fmt.Sprintf("label %q does not show the parameter list (pa, ...) as written", label))
+				}
 			case "member":
 				if dc.line.Unspec {
 					break
@@ -226,7 +269,7 @@ func cmJudge(c *Ctx, j *Job, res *proto.Result) {
 		if len(prob) == 0 {
 			continue
 		}
-		desc := fmt.Sprintf("hover on %s: %s — source %q", dc.name, strings.Join(prob, "; "), d.text)
+		desc := fmt.Sprintf("hover on %s in %s: %s — source %q", dc.name, dc.where, strings.Join(prob, "; "), d.text)
 		if surveyMode {
 			for _, p := range prob {
 				w := strings.Fields(p)
@@ -251,7 +294,7 @@ func checkC13(c *Ctx) {
 	}
 	cmSeed = c.Seed
 	p := c.NewPool(0)
-	cfg := fmt.Sprintf("CONSTANTS\n  MaxLines = %d\n  Texts = {1,2}\n  DeclKinds = {\"local\",\"global\",\"gfunc\",\"member\"}\nINIT Init\nNEXT Next\nINVARIANTS AccShort DocRule Emit\nCHECK_DEADLOCK FALSE\n", ml)
+	cfg := fmt.Sprintf("CONSTANTS\n  MaxLines = %d\n  Texts = {1,2}\n  DeclKinds = {\"local\",\"global\",\"gfunc\",\"gfuncv\",\"lfuncv\",\"member\"}\nINIT Init\nNEXT Next\nINVARIANTS AccShort DocRule Emit\nCHECK_DEADLOCK FALSE\n", ml)
 	if c.Replay != "" {
 		raw, err := loadReplayCase(c.Replay)
 		if err != nil {
